@@ -24,9 +24,11 @@ RULE = ("scenarios: operation {init, re-key via sp[k]=v, re-key via update_state
         "unrelated jobs.  Per scenario one PCrash case: the recorded mutation trace (replay self-check), EVERY prefix x "
         "torn offset {1, mid, len-1} materialised on a copy of the pre-state and observed through a fresh Project "
         "(byte snapshot, listing, check()), compared with the model's crash states as a sequence of distinct states; and "
-        "one PFault case per (hooked call under a workspace incl. read-only opens and listdir, errno in {EIO, ENOSPC, "
-        "EACCES, EXDEV, EROFS}) injected live (quick: a seeded sample of calls per scenario, all five errnos rotating; "
-        "thorough: every call x every errno), plus sampled DOUBLE faults (a second failing call later in the same run, "
+        "one PFault case per (hooked call under a workspace incl. read-only opens, listdir and os.stat / os.lstat, i.e. "
+        "os.path.isfile / isdir / exists / lexists, errno in {EIO, ENOSPC, "
+        "EACCES, EXDEV, EROFS}) injected live (quick: a seeded sample of calls per scenario, all five errnos rotating, plus "
+        "EVERY stat / listdir of the run with EIO; thorough: every call x every errno); every observation is made through a "
+        "fresh Project twice, without and with a persistent state point cache written before the operation, plus sampled DOUBLE faults (a second failing call later in the same run, "
         "e.g. inside a rollback or handler), plus FOLLOW-UP cases: a single fault that the operation handled "
         "(exception) leaving the pre-state on disk, then a further operation through the SAME job handle (sp[k]=v / doc[k]=v / init()), then a restart "
         "— quick: every mutating call x {EIO, EACCES} x sp[k]=v plus one rotating follow-up; thorough: every call x every errno.  non-trivial: the operation performs >= 2 mutating calls (crash) or the "
@@ -40,8 +42,8 @@ TRUSTED = [
     "CPython os.makedirs / shutil.copytree / shutil.rmtree / io.BufferedWriter are modelled, not verified",
 ]
 ASSUMPTIONS = ["faults on calls outside the workspaces (.signac/config reads of Project()) are not injected",
-               "stat-family calls (isdir/isfile/exists, scandir) are not fault positions in the correspondence "
-               "(the theorems quantify over them as well)",
+               "os.scandir(<path>) (shutil.copytree) is a fault position like os.listdir; os.scandir(<fd>) and stat calls "
+               "relative to a directory descriptor (shutil.rmtree's inner walk; DirEntry.is_dir uses d_type) are not",
                "state points / documents are written with a single write(2) (small blobs); chunked writes are C10's subject"]
 
 ERRNOS = [("EIO", errno.EIO), ("ENOSPC", errno.ENOSPC), ("EACCES", errno.EACCES), ("EXDEV", errno.EXDEV),
